@@ -132,6 +132,15 @@ let run_adapt_history p toks =
     let out = ref [] in
     let emit s = out := s :: !out in
     let rg r = dget !regs (nat_of_int r) in
+    (* an array access at a constant negative offset: offset_t wraps it to a huge unsigned
+       number, which is outside the modelled fragment; the answer is marked *)
+    let neg = ref false in
+    let chk r e =
+      let d = rg r in
+      if not (a_is_bottom d) then
+        (match isingleton (d_eval e d.d_base.a_base) with
+         | Some n -> if ZA.sign (zarith_of_z n) < 0 then neg := true
+         | None -> ()) in
     (try
     List.iter (fun op -> if op <> [] then begin
       let k = { t = Array.of_list op; p = 0 } in
@@ -142,12 +151,16 @@ let run_adapt_history p toks =
       | _ ->
         let r = nexti k in
         let hop = parse_hop ns arrkey k o (nat_of_int r) in
+        (match hop with
+         | ALoad (_, _, _, _, ix) | AStore (_, _, _, ix, _, _) -> chk r ix
+         | AInit (_, _, _, lb, ub, _) | ARange (_, _, _, lb, ub, _) -> chk r lb; chk r ub
+         | _ -> ());
         (match dstep p !regs hop with
          | Some rs -> regs := rs
          | None -> raise Crab_error);
         emit (show_adapt ns na arrkey with_shape (rg r))
     end) ops;
-    String.concat " ; " (List.rev !out)
+    (if !neg then "NEGATIVE-OFFSET " else "") ^ String.concat " ; " (List.rev !out)
     with Crab_error -> "ABORT")
   | _ -> failwith "bad history"
 (* ---- cell-algebra unit stream (ArrayAdaptCore) ---- *)
